@@ -168,6 +168,20 @@ def check(run: core.Run):
         extra_cov={"builder_state_mismatches": len(OPS_FAIL), "exhaustive": True, "exhaustive_part": "(absent|0|positive)^2 x ORDER BY x 5 call patterns x 9 positions x 6 classes x 2 modes"})
 
 
+    # TOP (SQL Server): SELECT [DISTINCT] [TOP (n)] <select list> - in this order, whatever the order of the calls, at every position
+    t_ = P.Table("t")
+    for calls in (("top",), ("distinct", "top"), ("top", "distinct"), ("distinct", "top", "where"), ("where", "top", "distinct")):
+        for pos in ("top-level", "from-subquery", "set-operand"):
+            q = MSSQLQuery.from_(t_).select(t_.a, t_.b)
+            for c_ in calls:
+                q = {"top": lambda q: q.top(4), "distinct": lambda q: q.distinct(), "where": lambda q: q.where(t_.c == 1)}[c_](q)
+            inner = q.get_sql(MSSQLQuery.SQL_CONTEXT)
+            outer = {"top-level": q, "from-subquery": MSSQLQuery.from_(q).select("*"), "set-operand": q.union(MSSQLQuery.from_(t_).select(t_.a, t_.b))}[pos]
+            text = outer.get_sql(MSSQLQuery.SQL_CONTEXT)
+            head = "SELECT " + ("DISTINCT " if "distinct" in calls else "") + "TOP (4) "
+            if not inner.startswith(head) or inner not in text:
+                run.violation("C09: the TOP clause is not in its grammatical place (SELECT [DISTINCT] TOP (n) ...) after the calls %s at position %s: %s"
+                              % ("/".join(calls), pos, text[:300]), {"kind": "top-head", "calls": calls, "position": pos, "sql": text, "expected_head": head})
     for f in OPS_FAIL[:3]:
         run.violation("C09: after the calls %(calls)s(limit=%(limit_arg)r, offset=%(offset_arg)r) on %(class)s the builder holds limit=%(state_limit)r offset=%(state_offset)r, "
                       "the setter table says limit=%(expected_limit)r offset=%(expected_offset)r; rendered: %(sql)s" % f, dict(f, kind="builder-state"))
